@@ -104,9 +104,13 @@ func H_C10_conv_Decimal64_from_float64() {
 	s := vpFloat64()
 	vpCover("reached")
 	v, err := Conv(FmtDecimal64, s)
-	vpAssert(err == nil, "float64 converts")
+	finite := s == s && s-s == 0 // neither NaN nor an infinity: decimal64 has neither (C05-decimal64-nan)
+	vpAssert((err == nil) == finite, "a float64 converts exactly when it is finite")
+	if err != nil {
+		return
+	}
 	r := float64(v.(Decimal64))
-	vpAssert(vpOr(r == s, vpAnd(r != r, s != s)), "identity")
+	vpAssert(r == s, "identity")
 }
 
 func H_C10_conv_Bool() {
